@@ -411,6 +411,12 @@ func checkSet(w *mon.W, c *mon.Case, routes []string, exhaustiveFamily bool) {
 					target = escapeSome(r, p)
 					p = target
 				}
+				if p == "/" && r.Chance(3) {
+					// absolute-form targets without a path (a proxy's client may send them):
+					// the path is "/"
+					target = r.Str("http://h?x=1", "http://h#f", "http://h", "http://h?next=/a/b")
+					w.Count("absolute_form_pathless_probes", 1)
+				}
 				ctx.Request.SetRequestURI(target)
 				ctx.Request.Header.SetMethod(m)
 				ctx.Request.SetHost("h")
